@@ -26,7 +26,7 @@ import c18_tables  # noqa: E402
 
 MALLOC_LIMIT_MB = 64
 # theorems of Properties_C18.v that are about the tables translated from /repo
-TABLE_DEPENDENT = {"C18HashTable.v": {"C18_hash_mod_correct", "C18_hash_insert_refines", "C18_hash_insert_arena", "C18_world2_step_ok", "C18_world2_any_interleaving"},
+TABLE_DEPENDENT = {"C18Consts.v": set(), "C18HashTable.v": {"C18_hash_mod_correct", "C18_hash_insert_refines", "C18_hash_insert_arena", "C18_world2_step_ok", "C18_world2_any_interleaving"},
                    "C18VecTable.v": {"C18_vec_expand_byte_size", "C18_vec_ops_refine_list", "C18_vec_step_refines_list", "C18_vec_reserve", "C18_vec_step_frame", "C18_vec_other_vector_survives", "C18_world_step_refines", "C18_world_ops_refine_lists", "C18_world2_step_ok", "C18_world2_any_interleaving"}}
 MALLOC_LIMIT = MALLOC_LIMIT_MB << 20
 SIZE_MAX = (1 << 64) - 1
@@ -424,6 +424,33 @@ def gen_string_script(rng, n):
     return cmds
 
 
+def gen_string_move_script(rng, n):
+    """String::swap, move assignment and move construction between the two plain Strings (0 and 3), each in the small (<= 30),
+    large (malloc) state or empty, interleaved with ordinary edits"""
+    cmds = ["N 1024 0"]
+    lens = [0, 1, 29, 30, 31, 100, 127, 128, 129, 600]
+    for _ in range(n):
+        k = rng.choice([0, 3])
+        r = rng.random()
+        if r < 0.2:
+            cmds.append("S %d as %s" % (k, hexs(rand_text(rng, rng.choice(lens), True))))
+        elif r < 0.3:
+            cmds.append("S %d os 1 %s" % (k, hexs(rand_text(rng, rng.choice(lens), True))))
+        elif r < 0.5:
+            cmds.append("S %d sw" % k)
+        elif r < 0.7:
+            cmds.append("S %d mv" % k)
+        elif r < 0.85:
+            cmds.append("S %d mc" % k)
+        elif r < 0.9:
+            cmds.append("S %d tr %d" % (k, rng.choice(lens)))
+        elif r < 0.95:
+            cmds.append("S %d %s" % (k, rng.choice(["cl", "rs"])))
+        else:
+            cmds.append("S %d %s" % (rng.choice([1, 2]), rng.choice(["sw", "mv", "mc"])))     # StringTmp: refused by the harness (skip)
+    return cmds
+
+
 def gen_string_fit_script(rng):
     """in-place formatting (remaining capacity >= 128) with outputs around the remaining capacity"""
     cmds = ["N 1024 0"]
@@ -612,6 +639,8 @@ def gen_scripts(rng, tier):
         scripts.append(gen_string_script(rng, 120))
     for _ in range(30 if q else 200):
         scripts.append(gen_string_fit_script(rng))
+    for _ in range(10 if q else 100):
+        scripts.append(gen_string_move_script(rng, 80))
     bv = gen_bitvec_cmds(rng, 6000 if q else 200000) + gen_range_cmds(rng, 3000 if q else 100000) + gen_tree_probe_cmds(rng, 2000 if q else 50000)
     for i in range(0, len(bv), 500):
         scripts.append(bv[i:i + 500])
@@ -641,6 +670,176 @@ def shard(scripts, n):
         j = load.index(min(load))
         bins[j].append(idx); load[j] += len(scripts[idx])
     return [sorted(b) for b in bins if b]
+
+
+def _asan_env():
+    env = dict(os.environ)
+    env["ASAN_OPTIONS"] = "allocator_may_return_null=1:max_allocation_size_mb=%d:detect_leaks=1:abort_on_error=0:print_summary=1" % MALLOC_LIMIT_MB
+    env["UBSAN_OPTIONS"] = "print_stacktrace=1"
+    return env
+
+
+def violation_predicate(key, impl, model):
+    """predicate script -> bool: does this script still show the violation `key`?  (monitor key: the harness prints the key;
+    sanitizer: the implementation stops; correspondence: an answer of the implementation differs from the model's)"""
+    env = _asan_env()
+
+    def pred(script):
+        rci, li, ei = run_exe(impl, [], [script], env=env, timeout=120)
+        if key.startswith("C18/sanitizer/"):
+            return rci != 0 and ("ERROR: " in ei or "runtime error" in ei)
+        if key.startswith("C18/correspondence/"):
+            if model is None or rci != 0 or len(li) != len(script):
+                return False
+            rcm, lm, em = run_exe(model, [str(MALLOC_LIMIT)], [script], big_stack=True, timeout=120)
+            if rcm != 0 or len(lm) != len(script):
+                return False
+            return any(DEFECT_RE.sub("", x) != y and not DEFECT_RE.findall(x) for x, y in zip(li, lm))
+        return any(key in DEFECT_RE.findall(x) for x in li)
+    return pred
+
+
+def ddmin(script, pred, budget=150):
+    """delta debugging on the commands of a script (a leading session command `N ...` is always kept): returns a sub-sequence
+    that still satisfies pred, 1-minimal when the budget of runs suffices"""
+    head = script[:1] if script and script[0].startswith("N ") else []
+    body = script[len(head):]
+    runs = [0]
+
+    def test(b):
+        runs[0] += 1
+        try:
+            return pred(head + b)
+        except Exception:
+            return False
+    if not body or not test(body):
+        return script, runs[0], False
+    n = 2
+    while len(body) >= 2 and runs[0] < budget:
+        chunk = max(1, len(body) // n)
+        subsets = [body[i:i + chunk] for i in range(0, len(body), chunk)]
+        reduced = False
+        for i in range(len(subsets)):
+            if runs[0] >= budget:
+                break
+            comp = [c for j, sub in enumerate(subsets) if j != i for c in sub]
+            if comp and test(comp):
+                body = comp; n = max(n - 1, 2); reduced = True
+                break
+        if not reduced:
+            if n >= len(body):
+                break
+            n = min(len(body), n * 2)
+    return head + body, runs[0], True
+
+
+def minimise_violations(ck, impl, model, limit=6):
+    """sharper failing inputs: every violation that carries a script gets the shortest sub-script that still shows it"""
+    done = 0
+    for v in ck.violations:
+        rp = v.get("replay") or {}
+        sc = rp.get("script")
+        if done >= limit or not isinstance(sc, list) or len(sc) < 3 or rp.get("variant") not in ("asan",) or "minimised" in rp:
+            continue
+        key = v["key"]
+        if not (key.startswith("C18/sanitizer/") or key.startswith("C18/correspondence/") or key.startswith("C18/")):
+            continue
+        if key.startswith(("C18/proof/", "C18/tables/", "C18/constants", "C18/model-driver")):
+            continue
+        try:
+            small, runs, ok = ddmin(list(sc), violation_predicate(key, impl, model))
+        except Exception as e:   # the search must never turn a finding into a crash of the check
+            ck.log("minimisation of %s failed: %r" % (key, e)); continue
+        done += 1
+        if ok and len(small) < len(sc):
+            rp["script_as_generated"] = sc[-400:] if len(sc) > 400 else sc
+            rp["script"] = small
+            rp["minimised"] = {"from_commands": len(sc), "to_commands": len(small), "runs": runs}
+            v["what"] += " [minimised by delta debugging from %d to %d commands: %s]" % (len(sc), len(small), "; ".join(c[:90] for c in small[:12]))
+            ck.log("minimised %s: %d -> %d commands (%d runs)" % (key, len(sc), len(small), runs))
+
+
+
+def hash_row_counterexample(rows, rng):
+    """a 32-bit hash code h and a row (prime, rcp, shift) of the re-extracted prime table for which the code's
+    _calc_mod(h) = h - uint32((uint64(h) * rcp) >> shift) * prime differs from h mod prime (None if the search finds none)"""
+    M32, M64 = (1 << 32) - 1, (1 << 64) - 1
+    for idx, row in enumerate(rows):
+        prime, rcp, shift = row[0], row[1], row[2]
+        if prime <= 0 or not (0 <= shift < 64):
+            return idx, 0, None, None
+        qmax = M32 // prime
+        cand = [M32, M32 - 1, 0, 1]
+        for q in (0, 1, 2, 3, qmax // 2, qmax - 2, qmax - 1, qmax):
+            for r in (0, 1, 2, prime // 2, prime - 2, prime - 1):
+                h = q * prime + r
+                if 0 <= h <= M32:
+                    cand.append(h)
+        cand += [rng.randrange(0, 1 << 32) for _ in range(3000)]
+        for h in cand:
+            x = (((h * rcp) & M64) >> shift) & M32
+            m = (h - x * prime) & M32
+            if m != h % prime:
+                return idx, h, m, h % prime
+    return None
+
+
+def continuation(rng, kind, n):
+    """commands of the same container kind that can follow any script prefix (used to push a model/implementation disagreement on
+    until one of the harness' monitors or the sanitizer shows a failing input of the property itself)"""
+    if kind in ("arena",):
+        return gen_arena_script(rng, n)[1:]
+    if kind in ("vector", "hash"):
+        w = (0.1, 0.8, 0.1) if kind == "vector" else (0.1, 0.1, 0.8)
+        return gen_mixed_script(rng, n, "quick", weights=w)[1:]
+    if kind == "tree":
+        return gen_tree_script(rng, n)[1:]
+    if kind in ("list", "pool"):
+        return gen_list_pool_script(rng, n)[1:]
+    if kind == "bitset":
+        return gen_bitset_script(rng, n)[1:]
+    if kind == "string":
+        return gen_string_script(rng, n)[1:]
+    return []
+
+
+def search_monitor_after_disagreement(ck, impl, rng, tries=24):
+    """fewer no-failing-input-found cases: for every model/implementation disagreement on which no monitor fired, run the
+    (minimised) script followed by random continuations of the same kind on the implementation alone and report the first monitor
+    or sanitizer stop as a violation WITH a failing input (itself minimised afterwards)"""
+    env = _asan_env()
+    found = []
+    for v in list(ck.violations):
+        key = v["key"]
+        if not key.startswith("C18/correspondence/") or not v.get("no_input"):
+            continue
+        kind = key.split("/")[-1]
+        sc = (v.get("replay") or {}).get("script")
+        if not isinstance(sc, list) or not sc or not sc[0].startswith("N "):
+            continue
+        for t in range(tries):
+            try:
+                tail = continuation(rng, kind, 40 if t < 12 else 200)
+            except Exception:
+                tail = []
+            if not tail:
+                break
+            script = list(sc) + tail
+            rci, li, ei = run_exe(impl, [], [script], env=env, timeout=300)
+            keys = [(j, k) for j, x in enumerate(li) for k in DEFECT_RE.findall(x)]
+            if keys:
+                j, k = keys[0]
+                if ck.violation(k, "monitor %s fired at %r, %d commands after the model/implementation disagreement %s (search by random continuation, try %d)" %
+                                (k, script[j][:120], j + 1 - len(sc), key, t), {"script": script[:j + 1], "variant": "asan", "after": key}):
+                    found.append(k)
+                break
+            if rci != 0 and ("ERROR: " in ei or "runtime error" in ei):
+                m = re.search(r"ERROR: (AddressSanitizer|LeakSanitizer): ([^\n]*)", ei) or re.search(r"runtime error: ([^\n]*)", ei)
+                if ck.violation("C18/sanitizer/" + kind, "the implementation stopped %d commands after the model/implementation disagreement %s: %s" %
+                                (len(li) + 1 - len(sc), key, m.group(0) if m else ei[-300:]), {"script": script[:len(li) + 1], "stderr": ei[-2000:], "variant": "asan", "after": key}):
+                    found.append("C18/sanitizer/" + kind)
+                break
+    return found
 
 
 def run_pair(ck, impl, model, scripts, shards=16):
@@ -775,7 +974,7 @@ def run(ck):
     gen_dir = None
     rendered = c18_tables.render(tab)
     # only the two files of this property are recompiled when the regenerated text differs from the committed snapshot
-    regen = ck.coq_regen(rendered, order=[n for n in ("C18HashTable.v", "C18VecTable.v") if n in rendered])
+    regen = ck.coq_regen(rendered, order=[n for n in ("C18HashTable.v", "C18VecTable.v", "C18Consts.v") if n in rendered])
     table_failures = []
     if regen is not None:
         gen_dir, failed, log = regen
@@ -962,6 +1161,33 @@ def run(ck):
                     ck.violation("C18/correspondence/arena-sformat", "implementation %r, model %r at %r" % (x[:200], (lm[1] if len(lm) > 1 else "<none>")[:200], script[1]),
                                  {"script": script, "variant": "asan", "broken": "ArenaModel.arena_sformat"}, no_input=True)
             nontrivial.add(("arena", script[1]))
+
+    # the re-extracted prime table no longer satisfies the reflection lemma: look for a concrete hash code that the real table puts
+    # into a bucket other than hash mod prime (monitor C18/hash/bucket-is-not-hash-mod-prime, or the sanitizer when the index is
+    # outside the bucket array)
+    if not ck.replay and any(f == "C18HashTable.v" for f, _ in table_failures):
+        ce = hash_row_counterexample(tab["rows"], rng)
+        if ce is not None and ce[2] is not None:
+            idx, h, got, want = ce
+            script = ["N 4096 0", "H 0 h %d" % idx, "H 0 i %d 1" % h, "H 0 d"]
+            rci, li, ei = run_exe(impl, [], [script], env=_asan_env(), timeout=120)
+            keys = [k for x in li for k in DEFECT_RE.findall(x)]
+            if keys:
+                ck.violation(keys[0], "prime table row %d %r: hash code %d lands in bucket %d, hash mod prime is %d (found by searching the re-extracted table; "
+                             "monitors %s fired at %r)" % (idx, tuple(tab["rows"][idx]), h, got, want, sorted(set(keys)), script[2]), {"script": script, "variant": "asan"})
+            elif rci != 0:
+                m = re.search(r"ERROR: (AddressSanitizer|LeakSanitizer): ([^\n]*)", ei)
+                ck.violation("C18/sanitizer/hash", "prime table row %d %r: hash code %d gives bucket index %d (hash mod prime is %d) and the implementation stopped: %s" %
+                             (idx, tuple(tab["rows"][idx]), h, got, want, m.group(0) if m else ei[-300:]), {"script": script, "stderr": ei[-2000:], "variant": "asan"})
+            else:
+                ck.note("hash table counterexample %r computed from the table did not show in the implementation run" % (ce,)) if hasattr(ck, "note") else None
+    if not ck.replay:
+        minimise_violations(ck, impl, model)
+        try:
+            if search_monitor_after_disagreement(ck, impl, rng):
+                minimise_violations(ck, impl, model)
+        except Exception as e:
+            ck.log("continuation search failed: %r" % (e,))
 
     for f, log in table_failures:
         ck.violation("C18/tables/" + f, "the table re-extracted from /repo no longer satisfies the reflection lemmas of %s: %s" % (f, log[-800:]),
